@@ -24,42 +24,50 @@ def seeds():
                     yield name, str(k), pf, os.path.join(d, f"seed{k}_meta.json")
 
 
-for pid, k, pf, mf in seeds():
-    if only and pid not in only:
-        continue
-    if True:
-        tmp = tempfile.mkdtemp(prefix="seedtest-")
+def one(item):
+    pid, k, pf, mf = item
+    out = []
+    tmp = tempfile.mkdtemp(prefix="seedtest-")
+    try:
+        shutil.copytree("/repo/pint", os.path.join(tmp, "pint"), ignore=shutil.ignore_patterns("testsuite", "__pycache__"))
+        r = subprocess.run(["patch", "-p1", "-s", "-f", "-d", tmp, "-i", pf], capture_output=True, text=True)
+        if r.returncode != 0:
+            return (pid, k, None, [f"{pid} seed{k}: PATCH DOES NOT APPLY: {r.stdout.strip()[:100]}"])
+        hits = []
+        for c in claimed:
+            env = dict(os.environ, PINT_REPO=tmp, VERIF_EVIDENCE_DIR=os.path.join(tmp, "ev"))
+            rr = subprocess.run([os.path.join(VERIF, "check"), c], capture_output=True, text=True, env=env)
+            if rr.returncode == 1:
+                lines = [l.strip() for l in rr.stdout.splitlines() if "] " in l and l.startswith("  pint")]
+                hits.append((c, lines[:2] or ["(exit 1 without report line)"]))
+            elif rr.returncode == 2:
+                hits.append((c, ["ANALYSIS-ERROR " + (rr.stdout.strip().splitlines() or ["?"])[-1][:150]]))
+        meta = {}
         try:
-            shutil.copytree("/repo/pint", os.path.join(tmp, "pint"), ignore=shutil.ignore_patterns("testsuite", "__pycache__"))
-            r = subprocess.run(["patch", "-p1", "-s", "-f", "-d", tmp, "-i", pf], capture_output=True, text=True)
-            if r.returncode != 0:
-                print(f"{pid} seed{k}: PATCH DOES NOT APPLY: {r.stdout.strip()[:100]}")
-                continue
-            hits = []
-            for c in claimed:
-                env = dict(os.environ, PINT_REPO=tmp, VERIF_EVIDENCE_DIR=os.path.join(tmp, "ev"))
-                rr = subprocess.run([os.path.join(VERIF, "check"), c], capture_output=True, text=True, env=env)
-                if rr.returncode == 1:
-                    lines = [l.strip() for l in rr.stdout.splitlines() if "] " in l and l.startswith("  pint")]
-                    hits.append((c, lines[:2]))
-                elif rr.returncode == 2:
-                    hits.append((c, ["ANALYSIS-ERROR " + rr.stdout.strip().splitlines()[-1][:150]]))
-            meta = {}
-            try:
-                meta = json.load(open(mf))
-                meta.setdefault("function", meta.get("construct", "?"))
-                meta.setdefault("summary", meta.get("breaks", ""))
-            except Exception:
-                pass
-            own = [h for h in hits if h[0] == pid]
-            status = "CAUGHT" if own and not own[0][1][0].startswith("ANALYSIS") else ("caught-by-other" if any(not h[1][0].startswith("ANALYSIS") for h in hits) else "MISSED")
-            print(f"{pid} seed{k}: {status}  [{meta.get('function','?')}] {meta.get('summary','')[:90]}")
-            RESULTS[f"{pid}-{k}"] = {"status": status, "hits": [{"check": c, "reports": lines} for c, lines in hits]}
-            for c, lines in hits:
-                for l in lines:
-                    print(f"      {c}: {l[:200]}")
-        finally:
-            shutil.rmtree(tmp, ignore_errors=True)
+            meta = json.load(open(mf))
+            meta.setdefault("function", meta.get("construct", "?"))
+            meta.setdefault("summary", meta.get("breaks", ""))
+        except Exception:
+            pass
+        own = [h for h in hits if h[0] == pid]
+        status = "CAUGHT" if own and not own[0][1][0].startswith("ANALYSIS") else ("caught-by-other" if any(not h[1][0].startswith("ANALYSIS") for h in hits) else "MISSED")
+        out.append(f"{pid} seed{k}: {status}  [{meta.get('function','?')}] {meta.get('summary','')[:90]}")
+        for c, lines in hits:
+            for l in lines:
+                out.append(f"      {c}: {l[:200]}")
+        return (pid, k, {"status": status, "hits": [{"check": c, "reports": lines} for c, lines in hits]}, out)
+    finally:
+        shutil.rmtree(tmp, ignore_errors=True)
+
+
+from concurrent.futures import ThreadPoolExecutor
+items = [it for it in seeds() if not only or it[0] in only]
+with ThreadPoolExecutor(max_workers=int(os.environ.get("SEEDTEST_JOBS", "12"))) as ex:
+    for pid, k, res, out in ex.map(one, items):
+        for l in out:
+            print(l)
+        if res is not None:
+            RESULTS[f"{pid}-{k}"] = res
 
 if json_out:
     json.dump(RESULTS, open(json_out, "w"), indent=1)
